@@ -100,6 +100,36 @@ def d1(cx: Cx, ob: Ob) -> None:
         inner = t[2][0] if op(t) == "call" and op(t[1]) == "builtin" and t[1][1] == "dict" and t[2] else t
         if op(inner) != "new" and not ctx.loops:
             ob.undecide(f"helper returns `{show(t)[:40]}`")
+    # reading a defaultdict by subscript CREATES the entry: a bucket looked up before the test that decides whether the
+    # URI contributes stays behind empty when the test fails - a URI prefix with no identifiers, which the cutoff-less
+    # filter keeps and numbers
+    def _reads_bucket(t):
+        return [x for x in subterms(t) if op(x) == "item" and op(x[1]) == "new" and x[1][1] == "defaultdict"] if isinstance(t, tuple) else []
+
+    def _scan(paths) -> bool:
+        for p in paths:
+            looked = None
+            added = False
+            for ev in p.events:
+                if ev.kind in ("bind", "guard") and _reads_bucket(ev.b if ev.kind == "bind" else ev.a) and looked is None:
+                    looked = ev
+                ka = keyed_add(ev)
+                if ka is not None or (ev.kind == "expr" and op(ev.a) == "call" and op(ev.a[1]) == "attr" and ev.a[1][2] in ("add", "update", "append") and _reads_bucket(ev.a[1][1])):
+                    added = True
+                if ev.body and _scan(ev.body):
+                    return True
+            if looked is not None and not added:
+                ob.violate(
+                    fn.qualname,
+                    where(fn, looked.line),
+                    f"the bucket `{show(_reads_bucket(looked.b if looked.kind == 'bind' else looked.a)[0])[:50]}` of the defaultdict is looked up (and thereby created) on a path that adds nothing to it: a split that is then rejected leaves an EMPTY entry, which without a cutoff becomes a numbered URI prefix nobody asked for and shifts the names of the genuine ones",
+                    witness="discover(['http://purl.obolibrary.org/obo/GO_0001']): the '/' split is rejected ('GO_0001' is not alphanumeric) and 'http://purl.obolibrary.org/obo/' shows up as a prefix",
+                    detail="empty-bucket",
+                )
+                return True
+        return False
+
+    _scan(s.paths)
 
 
 @obligation("C19-D2", "ORDER: the numbered sequence derives from sorted(...) of the mapping, is filtered by the cutoff BEFORE numbering, numbered by enumerate(..., start=1) and named metaprefix + index", floor=1)
@@ -288,6 +318,16 @@ def d4(cx: Cx, ob: Ob) -> None:
         if val != ("item", R, ("const", tail_idx)):
             ob.violate(fn.qualname, where(fn, ev.line), f"the identifier recorded is `{show(val)[:40]}`, not the tail of the split", detail="tail")
         gs = [(g.a, g.b) for g in ctx.guards if g.kind == "guard"]
+        if (("item", R, ("const", 0)), True) in gs:
+            ob.violate(
+                fn.qualname,
+                where(fn, ev.line),
+                f"a URI is learned from only if the HEAD of the split (`{show(('item', R, ('const', 0)))[:50]}`) is non-empty: that is not the test for 'the delimiter occurs' - a URI that begins with its delimiter ('#Person', '/42', '_b0') has an empty head and is dropped, so it no longer compresses and the numbering of the other prefixes shifts",
+                witness="discover(['#a1', '#a2']): no prefix '#' in the result",
+                detail="head-required",
+            )
+        elif m == "rpartition" and not present:
+            ob.violate(fn.qualname, where(fn, ev.line), "the URI is cut with rpartition and nothing tests that the delimiter occurs (the middle part, or `delimiter in uri`): for a URI without it the head is '' and the bare delimiter is learned as a URI prefix", detail="rpartition-unchecked")
         if (("call", ("attr", ("item", R, ("const", tail_idx)), "isalnum"), (), ()), True) not in gs:
             ob.violate(fn.qualname, where(fn, ev.line), "the tail is not required to be alphanumeric", detail="isalnum")
         if ctx.path.out != ("break",):
